@@ -156,9 +156,11 @@ class FractionScalar(AbstractValueWithQuantityObject):
         result = FractionValue(number=converted_number)
         # convert fraction's numerator
         if fraction_value.GetFraction() is not None:
+            # the fractional part is a difference of amounts: it scales with the unit, without the
+            # offset of units such as degC or degF (which the converted number already carries)
             converted_numerator = convert_to_quantity.ConvertScalarValue(
                 fraction_value.GetFraction().numerator, to_unit
-            )
+            ) - convert_to_quantity.ConvertScalarValue(0, to_unit)
 
             converted_fraction = copy.copy(fraction_value.GetFraction())
             converted_fraction.numerator = converted_numerator
